@@ -210,3 +210,32 @@ def validate_traces(ctx, progs, res, cfgname="MCTrace_upper.cfg", label="trace",
                 ctx.cov["samples"].append({"program": dsl.pretty(p), "validated_trace_[t,pc,res]": r["traces"][-1]})
                 break
     return rej
+
+
+def prefix_determinism(ctx, p, res, label=""):
+    """Isolation / determinism in its sharpest observable form: loom's execution is a function of the decisions taken,
+    so two iterations that share a decision prefix must have gone through exactly the same scheduler-visible thread
+    states along it (schedule hook: thread that called schedule, state of every thread).  Anything carried over from
+    an earlier iteration that influences scheduling shows up here, whichever iteration it first strikes in."""
+    import pathcheck
+    ends = [pathcheck.decisions(pathcheck.canon_path(path)) for (ph, it, path) in res.get("hook_events", []) if ph == "end"]
+    seen = {}
+    n = 0
+    for it, (dec, evs) in enumerate(zip(ends, res.get("sched_events", [])), start=1):
+        for (pos, prev, nxt, states) in evs:
+            if pos > len(dec):
+                continue
+            key = tuple(dec[:pos])
+            val = (prev, tuple(states))
+            old = seen.get(key)
+            n += 1
+            if old is None:
+                seen[key] = (val, it)
+            elif old[0] != val:
+                ctx.violation("same-prefix-different-state", p,
+                              {"decisions_before_branch": pos, "iteration_a": old[1], "iteration_b": it,
+                               "caller_and_states_a": [old[0][0], list(old[0][1])], "caller_and_states_b": [val[0], list(val[1])]},
+                              {"label": label, "note": "states: 0 runnable, 1 runnable+park token, 2 blocked, 3 yield, 4 terminated"})
+                return n
+    ctx.cov["schedule_events_compared"] = ctx.cov.get("schedule_events_compared", 0) + n
+    return n
